@@ -260,10 +260,16 @@ def gen_opts(rng, D, axis_free: bool, kind=None, force_ld=False):
     return kind, o
 
 
-def gen_case(ctx: Ctx, D, bank, types, axis_free, nmax, bias, kind=None, force_ld=False):
+def gen_case(ctx: Ctx, D, bank, types, axis_free, nmax, bias, kind=None, force_ld=False, uniform=False):
     rng = ctx.rng
     in_sig = L.gen_sig(rng, types, nmax)
     target = L.gen_sig(rng, types, nmax)
+    if uniform:
+        # equal channel counts on each side, one filter size, no missing filter, target types NOT in sorted order:
+        # the configuration in which a single fused convolution could replace the per-pair ones
+        ci, co = int(rng.integers(1, 4)), int(rng.integers(1, 4))
+        in_sig = [((1, 0), ci), ((0, 0), ci)] if rng.integers(2) else [((0, 0), ci), ((1, 0), ci)]
+        target = [((1, 0), co), ((0, 0), co)]
     kind, opts = gen_opts(rng, D, axis_free, kind, force_ld)
     rd = L.per_axis(D, opts.get("rhs_dilation"))
     ld = L.per_axis(D, opts.get("lhs_dilation"))
@@ -292,6 +298,47 @@ def gen_case(ctx: Ctx, D, bank, types, axis_free, nmax, bias, kind=None, force_l
         x_blocks[(k, p)] = rng.integers(-3, 4, size=(ch,) + tuple(N) + (D,) * k).astype(np.float32)
     return dict(D=D, in_sig=in_sig, target=target, bank=bank, bias=bias, opts=opts, x_blocks=x_blocks,
                 torus=torus, padkind=kind)
+
+
+def trained_layer(ctx: Ctx, geom, ml, c, group, gs):
+    """the layer after two plain gradient steps over ALL its inexact-array leaves (what `ml.train` updates):
+    the parameter values training reaches are parameter values, and the layer must still commute with the group"""
+    import equinox as eqx
+    import jax
+    import jax.numpy as jnp
+
+    D = c["D"]
+    desc = dict(describe(c, group), trained=True)
+    layer0 = L.build_layer(ml, D, c["in_sig"], c["target"], c["bank"], c["bias"], c["opts"])
+    layer, W, B = L.set_params(layer0, ctx.rng)
+    full = full_case(desc, c, W, B)
+    try:
+        x = geom.MultiImage({k: jnp.asarray(v, dtype=jnp.float32) for k, v in c["x_blocks"].items()}, D,
+                            tuple(bool(t) for t in c["torus"]))
+
+        def loss(params, static):
+            y = eqx.combine(params, static)(x)
+            return sum(jnp.sum((v - 1.0) ** 2) for v in y.data.values())
+
+        for _ in range(2):
+            params, static = eqx.partition(layer, eqx.is_inexact_array)
+            grads = jax.grad(loss)(params, static)
+            gmax = max([float(jnp.max(jnp.abs(g))) for g in jax.tree_util.tree_leaves(grads)] + [1.0])
+            layer = eqx.apply_updates(layer, jax.tree_util.tree_map(lambda g: -(0.5 / gmax) * g, grads))
+        y, fails = equivariance_failures(geom, layer, c, gs, 1e-4)
+    except Exception as e:  # noqa: BLE001
+        ctx.case(("trained", desc, full["weights"], full["input"]), False)
+        full["raised"] = f"{type(e).__name__}: {str(e)[:300]}"
+        ctx.violation("oracle", f"training / evaluating the layer raised {type(e).__name__} on a valid configuration", full)
+        return
+    ctx.case(("trained", desc, full["weights"], full["input"]), len(y) > 0 and any(np.any(v != 0) for _, v in y))
+    ctx.hist("trained_layers", 1)
+    if fails:
+        g, what = fails[0]
+        full["g"] = [[int(v) for v in row] for row in np.asarray(g)]
+        full["trained_steps"] = 2
+        ctx.violation("oracle", f"after two gradient steps over the layer's array leaves layer(g.x) != g.layer(x) for "
+                                f"{len(fails)} of {len(gs)} elements of {group}_{D}: {what}", full)
 
 
 def negative_control(ctx: Ctx, geom, ml, jnp):
@@ -331,7 +378,7 @@ def run(ctx: Ctx):
         "in turn; padding kinds default/TORUS/SAME/VALID/integer/explicit equal pairs; filter dilation 1-2; image "
         "dilation 1-2 with literal padding (and, less often, with the string / default paddings; always twice with SAME / default on a non-toroidal image); per-axis different options only for C2^d; random torus flags (travel with "
         "the image); square and non-square extents 3-5; every element of the group (B_3 quick: 12 seeded elements incl. "
-        "a reflection and an axis exchange); cyclic shifts on toroidal inputs. Non-trivial: non-empty non-zero output "
+        "a reflection and an axis exchange); cyclic shifts on toroidal inputs; two layers per run with equal channel counts on each side and target types in unsorted order; three layers per run re-checked after two gradient steps over all their array leaves. Non-trivial: non-empty non-zero output "
         "and at least one non-identity element. Distinct = distinct (layer configuration, weights, biases, input)."
     )
     ctx.assumptions = [
@@ -374,11 +421,15 @@ def run(ctx: Ctx):
             force_ld = name == "B" and D == 2 and i in (2, 5)
             if force_ld:
                 kind = "SAME" if i == 2 else "none"
-            c = gen_case(ctx, D, bank, types, axis_free, nmax, bias, kind=kind, force_ld=force_ld)
+            uniform = name == "B" and D == 2 and i in (3, 7)
+            c = gen_case(ctx, D, bank, types, axis_free, nmax, bias, kind=kind, force_ld=force_ld, uniform=uniform)
+            ctx.hist("uniform_channels_unsorted_targets", uniform)
             gs = gs_all
             if subset is not None and len(gs_all) > subset:
                 gs = [np.eye(D, dtype=np.int64)] + equiv.group_subset(D, ctx.rng, subset - 1)
             one_layer(ctx, geom, ml, c, name, gs, integer, with_model=(D == 2 or i == 0))
+            if name == "B" and D == 2 and i in (1, 3, 8) and c["opts"].get("lhs_dilation") is None:
+                trained_layer(ctx, geom, ml, c, name, gs)
     log(f"[C06] {ctx.evaluations} cases in {time.time() - t0:.1f}s")
 
 
